@@ -69,6 +69,19 @@ claim("C08",
       "TLA+ state machine over notations, TLC-enumerated conversion chains replayed into the code, TLC trace validation in exact integer arithmetic",
       "DESIGN.md section 4 C08")
 
+claim("C12",
+      "AnglesExpr.tla is a stack machine whose instructions are the operators of the five angle classes (+, -, unary -, abs, "
+      "* k, k *, / k, % k for DMS/DDM, round(n), ==, !=, <, >) with the intended semantics in exact arithmetic: value = the "
+      "operation on the operands' decimal degrees, class = class of the left operand, rounding within half a unit of the rounded "
+      "field. TLC enumerates every well-formed postfix program to the bound with all leaf-class assignments (and simulates "
+      "longer ones); the driver evaluates each expression shape on real objects once per class assignment with boundary-lattice "
+      "and random leaf values, and Trace_AnglesExpr.tla decides every instruction (raised / class / value within 1e-8\" / round / "
+      "bool) and that all class assignments of one expression denote the same angle.",
+      "Trusted: TLC, BigFix; alpha's decoding of angle objects from their fields (exact rationals). Expected values use the "
+      "operands' own .dec() as the property states; leaf values are lattice + seeded random samples.",
+      "TLA+ stack-machine specification, TLC-enumerated programs replayed into the code, TLC trace validation in exact fixed-point arithmetic",
+      "DESIGN.md section 4 C12")
+
 NOT_YET = "check not built yet in this session (work in progress; see DESIGN.md section 8 for build order)"
 
 
